@@ -27,7 +27,7 @@ const (
 )
 
 func c06(c *core.Ctx) map[string]interface{} {
-	c.Explanation = "Static counter-discipline and wiring check of the uplink NAS protection (C06). Decided, for every path of tglib.NASEncode at once: (R6.once) on every path that returns a protected message the uplink COUNT is read (SQN octet, cipher COUNT, MAC COUNT) with no mutation in between and advanced exactly once after the last read, never on an error path; with newSecurityContext both counters are reset to (0,0) before the first read and not otherwise; (R6.args) NASEncrypt/NASMacCalculate receive the UE's ciphering resp. integrity algorithm and key, COUNT = ULCount.Get(), BEARER = 1, DIRECTION = 0 (uplink), the MAC input is sequence-number-octet || payload and the output is EPD || header type || MAC || SQN || payload; (R6.cipher-iff) the cipher call is control-dependent on header type 2 or 4 and taken whenever the type is 2 or 4; (R6.plain) without a security context the result is PlainNasEncode's and no counter or key is touched; (R6.count) bit-provenance of security.Count: SQN = bits 7..0, overflow = bits 23..8, setters write exactly their field, AddOne increments then masks to 24 bits, Get masks to 24 bits; (R6.writers) nothing but NASEncode/NASDecode mutates a UE's counters. NOT decided: the MAC and keystream values themselves (C07) and the receiver's recovery."
+	c.Explanation = "Static counter-discipline and wiring check of the uplink NAS protection (C06). Decided, for every path of tglib.NASEncode at once: (R6.once) on every path that returns a protected message the uplink COUNT is read (SQN octet, cipher COUNT, MAC COUNT) with no mutation in between and advanced exactly once after the last read, never on an error path; with newSecurityContext both counters are reset to (0,0) before the first read and not otherwise; (R6.args) NASEncrypt/NASMacCalculate receive the UE's ciphering resp. integrity algorithm and key, COUNT = ULCount.Get(), BEARER = 1, DIRECTION = 0 (uplink), the MAC input is sequence-number-octet || payload and the output is EPD || header type || MAC || SQN || payload; (R6.cipher-iff) the cipher call is control-dependent on header type 2 or 4 and taken whenever the type is 2 or 4; (R6.plain) without a security context the result is PlainNasEncode's and no counter or key is touched; (R6.count) bit-provenance of security.Count: SQN = bits 7..0, overflow = bits 23..8, setters write exactly their field, AddOne increments then masks to 24 bits, Get masks to 24 bits; (R6.writers) nothing but NASEncode/NASDecode mutates a UE's counters. NOT decided: the MAC and keystream values themselves (C07) and the receiver's recovery. (components) the rule set of C07 (NEA/NIA algorithms) is run as part of this check: a valid MAC needs the right NIA."
 	c.Assumptions = []string{"security.NASEncrypt ciphers the payload slice in place (checked structurally in C07: copy(payload, output))",
 		"BEARER=1 for NAS over 3GPP access and DIRECTION=0 for uplink are the values of TS 33.501 6.4.3.1 / TS 33.401 B.1"}
 	fn := mustFunc(c, pTglib, "NASEncode")
@@ -35,6 +35,7 @@ func c06(c *core.Ctx) map[string]interface{} {
 	r6args(c, fn)
 	r6count(c)
 	r6writers(c)
+	include(c, "C07")
 	return nil
 }
 
